@@ -60,12 +60,16 @@ def frs(xs):
 class Sp:
     """one 1-D spline space built with the repo's constructors + what the model / the oracles need"""
 
-    def __init__(self, p, per, kind, breaks):
+    def __init__(self, p, per, kind, breaks, int_knots=False):
         from pygyro.splines.splines import make_knots, BSplines
         self.p, self.per, self.kind = int(p), bool(per), kind
         self.breaks = np.asarray(breaks, dtype=float)
         self.nc = len(self.breaks) - 1
         self.knots = make_knots(self.breaks, self.p, self.per)
+        self.int_knots = bool(int_knots) and bool(np.all(self.knots == np.round(self.knots)))
+        if self.int_knots:
+            # a hand-built knot vector of whole numbers (np.arange / np.r_ give an integer array): the same space
+            self.knots = self.knots.astype(np.int64)
         self.basis = BSplines(self.knots, self.p, self.per, kind.startswith('cu'))
         self.cu = bool(self.basis.cubic_uniform)
         self.nb = int(self.basis.nbasis)
@@ -86,7 +90,7 @@ class Sp:
 
     def desc(self):
         return {'degree': self.p, 'periodic': self.per, 'kind': self.kind, 'ncells': self.nc,
-                'breaks': [float(x) for x in self.breaks]}
+                'breaks': [float(x) for x in self.breaks], **({'knots_dtype': 'int64'} if self.int_knots else {})}
 
 
 KINDS = ['cu', 'uniform', 'uniform-dyadic', 'dyadic', 'random']
